@@ -120,7 +120,11 @@ impl SizeManifestBuilder {
         }
 
         let entry_count = self.entries.len() as u32;
-        let total_size: u64 = self.entries.iter().map(|e| e.esize).sum();
+        // A sum beyond 64 bits saturates here and is refused by validate() below
+        let total_size = self
+            .entries
+            .iter()
+            .fold(0u64, |total, e| total.saturating_add(e.esize));
 
         // Resize tag bit masks to match entry count
         let bit_mask_size = (self.entries.len()).div_ceil(8);
